@@ -520,12 +520,38 @@ func cmdCheck(args []string) int {
 	if *tier == "thorough" {
 		maxWit = 1000
 	}
+	if prop == "SELF" {
+		maxWit = 1 << 30 // self-validation replays every path
+	}
 	if len(witFiles) > maxWit {
+		// stratified by harness, so that every harness keeps witnesses
 		sort.Strings(witFiles)
-		step := len(witFiles) / maxWit
+		byH := map[string][]string{}
+		var hs []string
+		for _, f := range witFiles {
+			h := witMeta[f].Harness
+			if _, ok := byH[h]; !ok {
+				hs = append(hs, h)
+			}
+			byH[h] = append(byH[h], f)
+		}
+		quota := maxWit / len(hs)
+		if quota < 1 {
+			quota = 1
+		}
 		var sel []string
-		for i := seed % (step + 1); i < len(witFiles) && len(sel) < maxWit; i += step + 1 {
-			sel = append(sel, witFiles[i])
+		for _, h := range hs {
+			fs := byH[h]
+			if len(fs) <= quota {
+				sel = append(sel, fs...)
+				continue
+			}
+			step := len(fs) / quota
+			n := 0
+			for i := seed % (step + 1); i < len(fs) && n < quota; i += step + 1 {
+				sel = append(sel, fs[i])
+				n++
+			}
 		}
 		witFiles = sel
 	}
